@@ -427,6 +427,37 @@ def run_plot_strings(case):
                     break
             if len(vs) > 3:
                 break
+        # the same strings reached through the plotting entry points of a result whose framework got its plot rows AFTER it was validated
+        import matplotlib
+
+        matplotlib.use("agg")
+        import matplotlib.pyplot as plt
+        import pandas as pd
+        from mc import simspace
+        from mc.build import World
+
+        w = World(simspace.base_spec(["a", "b"], 0.25))
+        res = w.run(progs=False)
+        for i_ in inner[:12] + ["open('verif_leak5','w')"]:
+            for w_ in wrappers[:2]:
+                s_ = w_.format(i_)
+                n += 1
+                res.framework.sheets["plots"] = [pd.DataFrame([{"name": "p1", "type": "line", "quantities": s_, "plot group": None}])]
+                try:
+                    res.plot()
+                    accepted = True
+                except Exception:
+                    accepted = False
+                plt.close("all")
+                left = os.listdir(tmp)
+                if left:
+                    vs.append(V("plot-string-side-effect", f"Result.plot() with the framework plot specification {s_!r} created {left}", None))
+                    break
+                if accepted:
+                    vs.append(V("plot-string-accepted-non-literal", f"Result.plot() accepted the framework plot specification {s_!r}, which is not a list / dict of strings", dict(expr=s_)))
+                    break
+            if len(vs) > 3:
+                break
     finally:
         os.chdir(cwd)
         shutil.rmtree(tmp, ignore_errors=True)
